@@ -21,7 +21,9 @@ Definition acontent_eqb (a b : acontent payload) : bool :=
 Definition mkview (l : list (fname * acontent payload)) : fview := set_all empty_fs l.
 
 (* file-system events the model predicts for an uncrashed execution (existence probes left out) *)
-Inductive prim := PMove (a b : fname) | POpen (f : fname) | PWrite | PClose.
+(* PUnknown: a file-system event the model has no operation for (e.g. os.remove inside a writer): it never
+   equals a predicted event, so the comparison is decided (a mismatch) instead of failing to type-check *)
+Inductive prim := PMove (a b : fname) | POpen (f : fname) | PWrite | PClose | PUnknown.
 Definition prim_eqb (x y : prim) : bool :=
   match x, y with
   | PMove a b, PMove c d => fname_eqb a c && fname_eqb b d
